@@ -328,7 +328,7 @@ theorem B_step (sc : Scripts) (fs : FState) (js : JState) (w : World) (c : Cmd) 
     · rename_i hcond
       intro hG hF
       simp only [Bool.and_eq_true, decide_eq_true_eq] at hcond
-      obtain ⟨⟨⟨⟨⟨hu1, hu2⟩, _⟩, hint⟩, _⟩, _⟩ := hcond
+      obtain ⟨⟨⟨⟨⟨⟨hu1, hu2⟩, _⟩, hint⟩, _⟩, _⟩, _⟩ := hcond
       have hmem : u ∈ js.ids := h.acc u hu1 hu2
       refine ⟨hG, ?_, ?_, ?_, h.acc, ?_, ?_, h.clean, h.mnb, hF⟩
       · constructor
